@@ -95,6 +95,12 @@ fn handle(req: &Value) -> Value {
             json!({"state": [ns.0, ns.1, ns.2, ns.3, ns.4, ns.5],
                    "errors": errors.iter().map(|e| json!([e.0, e.1, e.2, e.3, e.4, e.5])).collect::<Vec<_>>()})
         }
+        "version_sort_matrix" => {
+            let ids: Vec<String> = req["idents"].as_array().expect("idents").iter().map(|v| v.as_str().unwrap_or("").to_owned()).collect();
+            let m = h::sort::version_sort_matrix(&ids);
+            let s: String = m.iter().map(|x| match x { -1 => '<', 0 => '=', _ => '>' }).collect();
+            json!({"matrix": s})
+        }
         "make_diff" => {
             let hunks = h::rustfmt_diff::make_diff_plain(
                 req["original"].as_str().unwrap_or(""),
